@@ -13,6 +13,7 @@
 -/
 import Dirk.Lemmas.Run
 import Dirk.Model.Import
+import Dirk.Lemmas.Exact
 
 set_option linter.unusedSimpArgs false
 
@@ -26,6 +27,24 @@ theorem C11_codec_roundtrip :
 
 /-- **C11 (restart).** -/
 theorem C11_restart (s : Inst) : (step s .restart).1 = s := rfl
+
+/-- **C11 (export is exact).** After any fault-free history of operations from an empty store, the
+    export states for every key exactly the last released slot, source and target (−1 = none) … -/
+theorem C11_export_exact (cfg : Config) (ops : List Op) (hc : ∀ op ∈ ops, op.clean) (k : Bytes) :
+    exportKey (run (init cfg []) ops).db k =
+      some { slot := lastSlot (run (init cfg []) ops).propLog k,
+             src := (lastVote (run (init cfg []) ops).attLog k).src,
+             tgt := (lastVote (run (init cfg []) ops).attLog k).tgt } :=
+  export_exact cfg ops hc k
+
+/-- … and the last released is the highest released, in each dimension (any history). -/
+theorem C11_last_is_highest (cfg : Config) (ops : List Op) (k : Bytes) :
+    (∀ e ∈ (run (init cfg []) ops).attLog, e.1 = k →
+      (e.2.tgt : Int) ≤ (lastVote (run (init cfg []) ops).attLog k).tgt ∧
+      (e.2.src : Int) ≤ (lastVote (run (init cfg []) ops).attLog k).src) ∧
+    (∀ e ∈ (run (init cfg []) ops).propLog, e.1 = k →
+      (e.2.slot : Int) ≤ lastSlot (run (init cfg []) ops).propLog k) :=
+  ⟨last_is_max_att cfg ops k, last_is_max_prop cfg ops k⟩
 
 /-- decisions of the attestation rule depend on the store only through the fetched state -/
 theorem onAttest_verdict_congr (db db' : Db) (pk : Bytes) (r : AttReq) (f : Faults)
